@@ -110,6 +110,10 @@ void LabelHandle(tStrComp const* pName, LargeWord Value, Boolean ForceGlobal) {
         pLabelElement->Offset = Value;
         if (AddStructElem(pInnermostNamedStruct->StructRec, pLabelElement)) {
             AddStructSymbol(pLabelElement->pElemName, Value);
+        } else {
+            /* a duplicate has been destroyed: nothing left to modify later */
+
+            pLabelElement = NULL;
         }
     }
 
